@@ -568,6 +568,44 @@ func ruleEncEndian(c *Ctx, r *Reporter) {
 	if n == 0 {
 		r.anchorMissing("encoding/binary calls")
 	}
+	// the functions that define the key formats must use encoding/binary (no hand-rolled byte order)
+	for _, name := range []string{"index.Uint16", "index.Uint32", "index.Uint64", "lpm.EncodeLPMKey", "lpm.DecodeLPMKey", "statedb.encodeNonUniqueKey", "statedb.(nonUniqueKey).primaryLen"} {
+		fn := c.fnByName(name)
+		if fn == nil {
+			r.anchorMissing(name)
+			continue
+		}
+		has := false
+		for _, ia := range allInstrs(fn) {
+			if call, ok := ia.In.(ssa.CallInstruction); ok && strings.HasPrefix(c.calleeName(call), "encoding/binary.(bigEndian)") {
+				has = true
+			}
+		}
+		r.check(has, name+"|uses binary.BigEndian", c.posStr(fn.Pos()), "fixed-width integers go through binary.BigEndian", "a key codec no longer uses binary.BigEndian for its fixed-width integer (hand-rolled shifts): width and byte order are no longer guaranteed to match the other side")
+	}
+	// byte shifted by >= 8 before widening is always zero
+	for _, fn := range c.Funcs {
+		if fn.Package() == nil {
+			continue
+		}
+		pk := shortPkg(fn.Package().Pkg.Path())
+		if pk != "lpm" && pk != "index" && pk != "statedb" && pk != "part" {
+			continue
+		}
+		for _, ia := range allInstrs(fn) {
+			bo, ok := ia.In.(*ssa.BinOp)
+			if !ok || bo.Op != token.SHL {
+				continue
+			}
+			bt, ok := bo.X.Type().Underlying().(*types.Basic)
+			if !ok || (bt.Kind() != types.Uint8 && bt.Kind() != types.Int8) {
+				continue
+			}
+			if k, ok := constInt(bo.Y); ok && k >= 8 {
+				r.bad(c.fnName(fn)+"|8-bit value shifted out", c.posStr(instrPos(bo)), "an 8-bit value is shifted left by 8 or more before being widened: the result is always zero (the high byte of the encoded integer is lost)")
+			}
+		}
+	}
 }
 
 func ruleEncNarrow(c *Ctx, r *Reporter) {
